@@ -395,7 +395,11 @@ def x2_large(ctx):
     from eqsig import im
     rng = ctx.rng
     quick = ctx.tier == 'quick'
-    for n in ([6000, 25000, 60000] if quick else [6000, 25000, 60000, 5000, 5001, 8192, 16385, 100000]):
+    # source hints: record lengths around every new integer constant; fractions and thresholds at / around every new float constant of the anchored files
+    hv01 = gen.hint_values(ctx, 0.001, 0.999, cap=12)
+    hv_pairs = [(x, 0.95) for x in hv01 if x < 0.9] + [(0.05, x) for x in hv01 if x > 0.1]
+    hv_thr = gen.hint_values(ctx, 1e-6, 100.0, cap=12, maps=(lambda c: c, lambda c: 9.81 * c))
+    for n in ([6000, 25000, 60000] if quick else [6000, 25000, 60000, 5000, 5001, 8192, 16385, 100000]) + gen.hint_sizes(ctx, lo=65, hi=1000000, cap=8):
         dt = gen.dyadic_dt(rng)
         env = np.exp(-((np.arange(n) - n * rng.uniform(0.3, 0.6)) / (n / 6)) ** 2)
         a = np.round(gen.noise_record(rng, n) * env * 40)                       # whole numbers, |a| up to ~150, many zeros in the tails
@@ -464,6 +468,8 @@ def x2_large(ctx):
             _ = asig.velocity, asig.pga
             asig.reset_values(b)
         sf, ef = rng.choice([(0.05, 0.95), (0.05, 0.75), (0.1, 0.9), (0.25, 0.5)])
+        if hv_pairs and rng.random() < 0.6:
+            sf, ef = rng.choice(hv_pairs)
         descb = {'a': f'gaussian noise x gaussian envelope, n={n} (seed-derived)', 'dt': dt, 'start': sf, 'end': ef, 'head': b[:4]}
         measures = [('Arias', None, im.calc_arias_intensity(asig)), ('custom measure calc_cav', im.calc_cav, im.calc_cav(asig)),
                     ('custom measure, not monotone (running sum of a)', lambda s_: np.cumsum(s_.values) + 3.0 * np.max(np.abs(np.cumsum(s_.values))),
@@ -486,6 +492,8 @@ def x2_large(ctx):
         # (c) bracketed duration
         absb = np.abs(b)
         thr = float(rng.choice([np.sort(absb)[int(0.999 * n)], np.sort(absb)[n // 2], absb.max(), absb.max() * 0.999, 0.0, absb[rng.randrange(n)]]))
+        if hv_thr and rng.random() < 0.6:
+            thr = float(rng.choice(hv_thr)) * rng.choice([1.0, float(absb.max())])       # absolute, or as a fraction of the peak
         wl = _x2_first_last(absb > thr)
         r_se, r_d = call_impl(im.calc_brac_dur, asig, thr, se=True), call_impl(im.calc_brac_dur, asig, thr)
         okb = (r_se == ('ok', (None, None)) and r_d[0] == 'ok' and r_d[1] == 0) if wl is None else \
